@@ -600,6 +600,8 @@ func runC18(p params) error {
 		h1.Cookie, h2.Cookie, h3.Cookie = "emptykey", "none", "valid"
 		c18AddCase(out, "loop-unconfigured-secret", c18Input{Kind: "loop", SecretEmpty: k == 1, RandSeed: 77 + uint64(k), Hellos: []c18Hello{h1, h2, h3}, Suite: 0xe013, Addr: "10.1.2.3:40000"})
 	}
+	// configurations used through Config.Clone carry the fields this property depends on
+	cloneCases(out, []string{"dtlcp"}, map[string][]string{"dtlcp": {"CookieSecret", "Rand", "GetConfigForClient"}})
 	return out.Finish()
 }
 
